@@ -1012,7 +1012,7 @@ impl<D: Distance> Writer<D> {
         to_insert: &RoaringBitmap,
         large_descendants: &mut RoaringBitmap,
         tmp_nodes: &mut TmpNodes<NodeCodec<D>>,
-    ) -> Result<ItemId> {
+    ) -> Result<NodeId> {
         opt.cancelled()?;
         match current_node.mode {
             NodeMode::Item => {
@@ -1020,22 +1020,21 @@ impl<D: Distance> Writer<D> {
                 let mut new_items = RoaringBitmap::from_iter([current_node.item]);
                 new_items |= to_insert;
 
-                if !self.fit_in_descendant(opt, new_items.len()) {
-                    large_descendants.insert(current_node.item);
-                }
-
                 if new_items.len() > 1 {
                     let node_id = frozen_reader.concurrent_node_ids.next()?;
                     let node_id = NodeId::tree(node_id);
+                    if !self.fit_in_descendant(opt, new_items.len()) {
+                        large_descendants.insert(node_id.item);
+                    }
                     tmp_nodes.put(
                         node_id.item,
                         &Node::Descendants(Descendants {
                             descendants: Cow::Owned(new_items.clone()),
                         }),
                     )?;
-                    Ok(node_id.item)
+                    Ok(node_id)
                 } else {
-                    Ok(current_node.item)
+                    Ok(current_node)
                 }
             }
             NodeMode::Tree => {
@@ -1060,7 +1059,7 @@ impl<D: Distance> Writer<D> {
                                 }),
                             )?;
                         }
-                        Ok(current_node.item)
+                        Ok(current_node)
                     }
                     Node::SplitPlaneNormal(SplitPlaneNormal { normal, left, right }) => {
                         // Split the to_insert into two bitmaps on the left and right of this normal
@@ -1098,18 +1097,18 @@ impl<D: Distance> Writer<D> {
                             tmp_nodes,
                         )?;
 
-                        if new_left != left.item || new_right != right.item {
+                        if new_left != left || new_right != right {
                             tmp_nodes.put(
                                 current_node.item,
                                 &Node::SplitPlaneNormal(SplitPlaneNormal {
                                     normal,
-                                    left: NodeId::item(new_left),
-                                    right: NodeId::item(new_right),
+                                    left: new_left,
+                                    right: new_right,
                                 }),
                             )?;
-                            Ok(current_node.item)
+                            Ok(current_node)
                         } else {
-                            Ok(current_node.item)
+                            Ok(current_node)
                         }
                     }
                 }
